@@ -19,6 +19,8 @@ import IsoDT.Driver.RatOps2
 import IsoDT.Driver.RatOps3
 import IsoDT.Driver.DurQ
 import IsoDT.Driver.SpecOps
+import IsoDT.Driver.RecMM
+import IsoDT.Driver.TruncProps
 
 open IsoDT IsoDT.Model
 open IsoDT.Spec (Date TZ TP)
@@ -329,6 +331,8 @@ def extDispatch (toks : List String) : Option String :=
   <|> IsoDT.Driver.RatOps3.dispatch toks
   <|> IsoDT.Driver.DurQ.dispatch toks
   <|> IsoDT.Driver.SpecOps.dispatch toks
+  <|> IsoDT.Driver.RecMM.dispatch toks
+  <|> IsoDT.Driver.TruncProps.dispatch toks
   -- <|> IsoDT.Driver.Foo.dispatch toks
 
 def dispatch (toks : List String) : String :=
